@@ -76,7 +76,8 @@ def model_linear(levels, theta, phi, mask_edges, log=False):
     lv = [float(x) for x in levels]
     if log:
         th = [math.log(t) for t in th]
-        lv = [math.log(x) for x in lv]
+        # (a level <= 0 has no logarithm: it lies outside the range of any positive target_data)
+        lv = [math.log(x) if x > 0 else -math.inf for x in lv]
     if th[-1] < th[0]:
         th, ph = th[::-1], ph[::-1]
     out = []
@@ -352,7 +353,7 @@ class TrCounters:
                   "tasks_executed": 0, "choice_points": 0, "degenerate_cells": 0, "cells_on_bin_edge": 0,
                   "columns_inside_span": 0, "poisoned_elements": 0, "kernel_calls": 0, "multi_chunk_cases": 0,
                   "masked_levels": 0, "levels_at_end_values": 0, "decreasing_columns": 0, "eager_refused": 0,
-                  "scaled_calls": 0}
+                  "scaled_calls": 0, "shared_computes": 0}
         self.fired = {}
         self.orders = set()
         self.graph_shapes = set()
@@ -703,6 +704,32 @@ def run_grid(spec, cnt, prop, feat):
                 return V(prop, "lazy-differs", "grid", feat,
                          f"chunking the non-axis dimensions ({chunks}) changes the result under schedule {sc}: first differing index "
                          f"{bad[0].tolist() if len(bad) else '(name)'}; eager {eager.values.tolist()} vs lazy {got.values.tolist()}", si)
+        # ---- shared compute (F5): the same call with another target_data of the same name, dimensions and position
+        # (the profiles of every column listed upside down - another time step of the same field), both lazy results
+        # computed in one graph; each must still equal its own in-memory result
+        if spec.get("pair") and "target_data" in kw and not spec.get("bypass_checks"):
+            cnt.c["shared_computes"] += 1
+            zax = td.dims.index(zdim_th)
+            td2 = td.copy(data=np.flip(np.asarray(td.values), axis=zax))
+            kw2 = dict(kw, target_data=td2)
+            lkw2 = dict(lkw, target_data=(td2.chunk({d: c for d, c in chunks.items() if d in td2.dims})
+                                          if spec.get("td_lazy") else td2))
+            try:
+                eager2 = grid.transform(da, "Z", target, **kw2).compute()
+                lazy2 = grid.transform(lda, "Z", ltarget, **lkw2)
+                with dask.config.set(scheduler="synchronous"):
+                    got1, got2 = dask.compute(lazy, lazy2)
+            except Exception as e:  # noqa
+                return V(prop, "lazy-compute-raises", "grid", feat + "/paired/" + type(e).__name__,
+                         f"the same transform with the target_data profiles listed upside down, computed together with the "
+                         f"first one, raised {type(e).__name__}: {str(e)[:300]}")
+            for g, e, which in ((got1, eager, "first"), (got2, eager2, "second")):
+                g = g.transpose(*e.dims)
+                if not np.array_equal(g.values, e.values, equal_nan=True):
+                    return V(prop, "lazy-differs", "grid", feat + "/paired",
+                             f"two transforms that differ only in the values of their target_data (same name {td.name!r}, dims "
+                             f"{td.dims}), computed in one graph: the {which} result differs from its in-memory result: "
+                             f"{g.values.tolist()} vs {e.values.tolist()}"[:900])
     return None
 
 
@@ -883,6 +910,19 @@ class Engine:
             # exactly, so the result must be the scaled result bit for bit
             spec["scale_exp"] = srng.choice([-200, -100, -60, -40, -30, 30, 60] if not spec.get("float32")
                                             and not spec.get("fine_f32") else [-60, -40, -30, 30, 40])
+        if spec["level"] == "grid" and srng.random() < 0.25:
+            spec["pair"] = True
+        if self.prop == "C08" and spec["method"] == "log" and spec["mask_edges"] and srng.random() < 0.3:
+            # a level of the opposite sign to the (positive) target_data: outside the range, so masked
+            if spec["level"] == "kernel":
+                lst = spec["levels"]
+            elif spec["target"]["kind"] == "nd":
+                lst = srng.choice(spec["target"]["levels"])
+            else:
+                lst = spec["target"]["levels"]
+            k = srng.randrange(len(lst))
+            lst[k] = -lst[k]
+            spec["negative_level"] = True
         v = run_case(spec, self.cnt)
         ncol = int(np.prod(spec["cols"])) if spec["cols"] else 1
         multi = any(len(c) > 1 for c in (spec.get("chunks") or []))
